@@ -46,6 +46,7 @@ type Oracles struct {
 	StrictError bool // any litestream op error is reported (harness visibility)
 	TraceCk     bool // record checkpointIfNeeded inputs/observed attempts per sync (C13 correspondence)
 	TraceVerify bool // record verify inputs/decision before each sync (C04 correspondence)
+	TraceL0     bool // describe every level-0 file litestream writes (C01/C02 correspondence)
 	// Classify maps a failure to a signature refinement (known findings). Optional.
 	Classify func(h History, at int, f *Fail)
 }
@@ -57,6 +58,8 @@ type RunStats struct {
 	ErrKinds                                         []string
 	CkObs                                            []CkObs
 	VerifyObs                                        []VerifyObs
+	L0Obs                                            []L0Obs
+	L0Skipped                                        int
 	Outcomes                                         []string
 }
 
@@ -83,8 +86,13 @@ func Run(h History, or Oracles) (fails []Fail, st RunStats, err error) {
 		}
 		fails = append(fails, f)
 	}
+	l0Seen := uint64(0)
+	l0Commits := map[uint64]uint32{}
 	for i, op := range h.Ops {
 		st.Kinds[op.K]++
+		if or.TraceL0 && (op.K == "down" || op.K == "crash" || op.K == "close" || op.K == "resetmeta" || op.K == "autorecover" || op.K == "up" || op.K == "upsame") {
+			l0Seen, l0Commits = 0, map[uint64]uint32{} // local numbering may restart
+		}
 		if op.K == "idle" {
 			if e.LS == nil {
 				continue
@@ -138,6 +146,12 @@ func Run(h History, or Oracles) (fails []Fail, st RunStats, err error) {
 			if strings.HasPrefix(l, "sync") && strings.Contains(l, "snap=true") {
 				st.SnapshotSyncs++
 			}
+		}
+		if or.TraceL0 && e.LS != nil && isLitestreamOp(op.K) {
+			obs, max, sk := e.collectL0(l0Seen, l0Commits)
+			st.L0Obs = append(st.L0Obs, obs...)
+			st.L0Skipped += sk
+			l0Seen = max
 		}
 		st.Outcomes = append(st.Outcomes, out)
 		if out != "ok" {
